@@ -633,7 +633,7 @@ impl Property for C07 {
     }
     fn runs(&self, tier: Tier) -> usize {
         match tier {
-            Tier::Quick => 40_000,
+            Tier::Quick => 100_000,
             Tier::Thorough => 8_000_000,
         }
     }
